@@ -544,7 +544,7 @@ package transport
 //@   ensures err != nil ==> r == nil
 //@   ensures [C17:one-request] nRT == 1
 //@   ensures [C17:only-a-200-answer-is-decoded] err == nil ==> gResp != nil && gResp.StatusCode == 200
-//@   callsite RoundTrip: [C17:request-goes-to-the-configured-url] arg0 == u.rt && arg1.URL != nil && arg1.URL != u.urlTemplate && fresh(arg1.URL) && arg1.URL.Scheme == u.urlTemplate.Scheme && arg1.URL.Host == u.urlTemplate.Host && arg1.URL.Path == u.urlTemplate.Path && arg1.URL.RawQuery == rawQuery
+//@   callsite RoundTrip: [C17,C05:request-goes-to-the-configured-url] arg0 == u.rt && arg1.URL != nil && arg1.URL != u.urlTemplate && fresh(arg1.URL) && arg1.URL.Scheme == u.urlTemplate.Scheme && arg1.URL.Host == u.urlTemplate.Host && arg1.URL.Path == u.urlTemplate.Path && arg1.URL.RawQuery == rawQuery
 //@   ghost gLR io.Reader = nil
 //@   ghost gN int64 = 0
 //@   aftercall LimitReader?: gLR = ret0
